@@ -59,6 +59,9 @@ def _main_check(ctx: Ctx) -> None:
             g = get_call(s.value)
             if g is not None:
                 restored[v] = (g[0], g[1], s)
+            elif isinstance(s.value, ast.Name) and s.value.id in restored and pre_assign.get(s.value.id) is restored[s.value.id][2]:
+                # a copy of a restored variable taken before anything ran: the same value read from the same key
+                restored[v] = (restored[s.value.id][0], restored[s.value.id][1], s)
             else:
                 derived[v] = s
         elif isinstance(s, ast.Assign) and len(s.targets) == 1 and isinstance(s.targets[0], ast.Tuple) and all(isinstance(x, ast.Name) for x in s.targets[0].elts):
